@@ -185,6 +185,9 @@ impl TypeRegistry {
     /// Add a modifier onto a type
     ///
     /// This expects there to not already be a modifier on the type
+    ///
+    /// A modifier on an array type qualifies the elements of the array (there is no "const array of T" distinct from
+    /// an "array of const T"), so the modifier is merged into the element type
     pub fn combine_modifier(&self, id: TypeId, modifier: TypeModifier) -> TypeId {
         assert!(!matches!(
             self.get_type_layer(id),
@@ -192,6 +195,10 @@ impl TypeRegistry {
         ));
         if modifier == TypeModifier::default() {
             id
+        } else if let TypeLayer::Array(element, len) = self.get_type_layer(id) {
+            let (element_base, element_modifier) = self.extract_modifier(element);
+            let element = self.combine_modifier(element_base, element_modifier.combine(modifier));
+            self.register_type(TypeLayer::Array(element, len))
         } else {
             self.register_type(TypeLayer::Modifier(modifier, id))
         }
@@ -204,7 +211,7 @@ impl TypeRegistry {
             id
         } else {
             modifier.is_const = true;
-            self.register_type(TypeLayer::Modifier(modifier, base))
+            self.combine_modifier(base, modifier)
         }
     }
 
